@@ -831,7 +831,8 @@ Section OpFacts.
     List.length cs0 = lf_cap s -> nth_error cs0 n = Some (mkcell k n a v) ->
     (forall m, m <> n -> nth_error cs0 m = nth_error (dl_cells l) m) ->
     exists l', dl_access true (with_cells l cs0) n now = Ok l' /\
-               rep3 l' (lf_access s k v now) (remove_nat n used ++ [n]) free.
+               rep3 l' (lf_access s k v now) (remove_nat n used ++ [n]) free /\
+               dl_index l' = dl_index l.
   Proof.
     intros R Inv I Ec Hlen Hn0 Hm0.
     assert (Nk : NoDup (keys (lf_ents s))) by (destruct Inv as (_ & _ & X & _); exact X).
@@ -841,7 +842,7 @@ Section OpFacts.
     destruct (used_key _ _ _ _ _ _ R I Kn) as (v1 & a1 & Ec1 & Ei & Ie).
     pose proof (dl_access_ok (with_cells l cs0) used free n (mkcell k n a v) k c now
                   (r_list _ _ _ _ R) (r_end _ _ _ _ R) (r_nd _ _ _ _ R) I Hn0 eq_refl eq_refl Ei Em) as HA.
-    rewrite HA. eexists. split; [reflexivity|].
+    rewrite HA. eexists. split; [reflexivity|]. split; [|reflexivity].
     cbn [with_cells dl_cap dl_tick dl_rnum dl_rk dl_list dl_cells dl_end dl_index dl_mm dl_used
          mkcell dc_keyed dc_val].
     unfold lf_access, lf_count. rewrite Ea2.
@@ -996,21 +997,389 @@ Section OpFacts.
     destruct (lf_age_loop now (lf_tick s) (lf_rnum s) (lf_rk s) (lf_ents s) (lf_ord s) [] 0) as [[e o] n].
     cbn [fst snd] in *. exists l', u'. split; [exact D|exact R'].
   Qed.
+
+  (* ---- do_prune on a non-empty cache: aging, then the multimap's first pair is erased ---- *)
+  Lemma prune_ref t (l : lfdl K V) (s : lf K V) used free now c kv rest :
+    rep3 l s used free -> lf_inv t s -> (t <= now)%Z -> used <> [] ->
+    lf_ord (fst (lf_dyn_age s now)) = (c, kv) :: rest ->
+    exists l' used' n, dl_do_prune true l now = Ok l' /\
+       rep3 l' (lf_erase_key (fst (lf_dyn_age s now)) kv) used' (n :: free).
+  Proof.
+    intros R Inv Lt Hne HO.
+    assert (T : (0 <= lf_tick s)%Z) by (destruct Inv as (_ & X & _); exact X).
+    assert (I1 : lf_inv now (fst (lf_dyn_age s now))) by (apply (lf_inv_dyn_age t); auto).
+    destruct (dyn_age_ref l s used free now R T) as (l1 & u1 & D & R1).
+    unfold dl_do_prune.
+    assert (C : (0 <? dl_used l) = true).
+    { apply Nat.ltb_lt. rewrite (r_used _ _ _ _ R). destruct used; [congruence|simpl; lia]. }
+    rewrite C, D. cbn [bind fst].
+    pose proof (r_mm _ _ _ _ R1) as HM. rewrite HO in HM.
+    destruct (dl_mm l1) as [|[c1 n] mm'] eqn:EM; simpl in HM; [discriminate|].
+    injection HM as HM1 HM2.
+    assert (Kn : kf (dl_cells l1) n = Some kv).
+    { destruct (kf (dl_cells l1) n); inversion HM1; auto. }
+    assert (In1 : In n u1). { apply (r_mmused _ _ _ _ R1). rewrite EM. left; reflexivity. }
+    destruct (erase_ref now l1 _ u1 free n kv R1 I1 In1 Kn) as (l' & D' & R').
+    exists l', (remove_nat n u1), n. split; [exact D'|exact R'].
+  Qed.
+
+  (* do_insert when there is a free node *)
+  Lemma insert_nonfull (l : lfdl K V) (s : lf K V) used free k v now :
+    rep3 l s used free -> List.length (lf_ents s) < lf_cap s -> assoc k (dl_index l) = None ->
+    exists l' used' free', dl_do_insert true l k v now = Ok l' /\
+                           rep3 l' (lf_add s k v now) used' free'.
+  Proof.
+    intros R Hlt E. pose proof (rep3_len _ _ _ _ R) as Lu.
+    destruct free as [|n free'].
+    { exfalso. pose proof (r_llen _ _ _ _ R) as X. rewrite app_nil_r in X. lia. }
+    assert (Il : In n (dl_list l)).
+    { rewrite (r_list _ _ _ _ R). apply in_or_app. right; left; reflexivity. }
+    assert (Nn : ~ In n used).
+    { pose proof (r_nd _ _ _ _ R) as N. apply NoDup_remove_2 in N. intros I. apply N.
+      apply in_or_app; auto. }
+    assert (Hn : n < List.length (dl_cells l)).
+    { rewrite (r_clen _ _ _ _ R). apply (r_bnd _ _ _ _ R). apply in_or_app. right; left; auto. }
+    destruct (nth_error (dl_cells l) n) as [e|] eqn:Ec; [|apply nth_error_None in Ec; lia].
+    assert (C1 : (List.length (dl_list l) <=? dl_used l) = false).
+    { apply Nat.leb_gt. rewrite (r_list _ _ _ _ R), (r_llen _ _ _ _ R), (r_used _ _ _ _ R). lia. }
+    assert (D1 : dcell_of l (dl_end l) = Ok (n, e)).
+    { rewrite (r_end _ _ _ _ R). simpl l_begin. apply dcell_of_ok; auto. }
+    assert (C2 : (List.length (dl_index l) <? dl_cap l) = true).
+    { apply Nat.ltb_lt. rewrite (r_ixlen _ _ _ _ R), (r_cap _ _ _ _ R). lia. }
+    assert (D2 : l_next (dl_list l) (dl_end l) = Ok (l_begin free')).
+    { rewrite (r_end _ _ _ _ R). simpl l_begin. unfold l_next. rewrite (mem_nat_in _ _ Il).
+      rewrite (r_list _ _ _ _ R), after_app by exact Nn. reflexivity. }
+    unfold dl_do_insert. rewrite C1. cbn [bind]. rewrite D1. cbn [bind].
+    unfold index_emplace. rewrite C2. cbn [bind]. rewrite vset_ok by exact Hn. cbn [bind].
+    rewrite D2. cbn [bind].
+    eexists. exists (used ++ [n]), free'. split; [reflexivity|].
+    exact (rep3_claim l s used n free' k v now R E).
+  Qed.
+
+  Lemma rep3_ix_none (l : lfdl K V) (s : lf K V) used free k :
+    rep3 l s used free -> ~ In k (keys (lf_ents s)) -> assoc k (dl_index l) = None.
+  Proof.
+    intros R N. destruct (assoc k (dl_index l)) as [n|] eqn:A; auto. exfalso.
+    destruct (r_ix _ _ _ _ R k n A) as [I Kn].
+    destruct (used_key _ _ _ _ _ _ R I Kn) as (v & a & _ & _ & Ie).
+    apply N. eapply in_pair_keys. exact Ie.
+  Qed.
+
+  (* do_insert_update *)
+  Lemma ins_ref t (l : lfdl K V) (s : lf K V) k v a now :
+    lf_inv t s -> (t <= now)%Z -> dl_rep l s ->
+    exists l', dl_ins true l k v a now = Ok (l', snd (lf_ins s k v a now)) /\
+               dl_rep l' (fst (lf_ins s k v a now)).
+  Proof.
+    intros Inv Lt Rp. destruct (rep3_elim _ _ Rp) as (used & free & R).
+    assert (Nk : NoDup (keys (lf_ents s))) by (destruct Inv as (_ & _ & X & _); exact X).
+    destruct (lf_ins s k v a now) as [s' b] eqn:EI. cbn [fst snd].
+    unfold dl_ins. destruct (assoc k (dl_index l)) as [n|] eqn:A.
+    - destruct (rep3_lookup _ _ _ _ _ _ R Nk A) as (I & v0 & a0 & Ec & EA).
+      unfold lf_ins in EI. rewrite EA in EI. destruct (a_upd a).
+      + inversion EI; subst s' b. clear EI.
+        assert (Il : In n (dl_list l)) by (rewrite (r_list _ _ _ _ R); apply in_or_app; auto).
+        assert (Hn : n < List.length (dl_cells l)) by (apply nth_error_Some; congruence).
+        destruct (access_ref t l s used free n k v0 a0 v (upd_nth n (mkcell k n a0 v) (dl_cells l)) now
+                    R Inv I Ec) as (l' & D & R' & _).
+        { rewrite upd_nth_len. exact (r_clen _ _ _ _ R). }
+        { apply nth_error_upd_eq. exact Hn. }
+        { intros m Nm. apply nth_error_upd_neq. exact Nm. }
+        unfold dl_do_update. rewrite (dcell_of_ok l n _ Il Ec). cbn [bind].
+        rewrite vset_ok by exact Hn. cbn [bind mkcell dc_keyed dc_lfu dc_age dc_val].
+        unfold mkcell in D. rewrite D. cbn [bind].
+        exists l'. split; [reflexivity|]. eapply rep3_intro; eauto.
+      + inversion EI; subst s' b. exists l. auto.
+    - pose proof (rep3_lookup_none _ _ _ _ _ R A) as EA.
+      assert (HG : lf_get s k = None) by (apply lf_get_None; exact EA).
+      destruct (lf_ins_cases t s k v a now s' b Inv Lt EI)
+        as [(HG' & _)|[(HB & ES & HC)|[(_ & HI & HB & HSz & ES)|(_ & HI & HB & HSz & c & kv & rest & HO & ES)]]].
+      + congruence.
+      + destruct HC as [(HG' & _)|(_ & HI)]; [congruence|]. rewrite HI. subst s' b. exists l. auto.
+      + rewrite HI. subst s' b. unfold lf_size in HSz.
+        destruct (insert_nonfull l s used free k v now R HSz A) as (l' & u' & f' & D & R').
+        rewrite D. cbn [bind]. exists l'. split; [reflexivity|]. eapply rep3_intro; eauto.
+      + rewrite HI. subst s' b.
+        destruct (lf_evict_facts t s k now c kv rest Inv Lt HSz HG HO)
+          as (I1 & G1 & I2 & Nk2 & Hlen2 & Hcap2 & _).
+        pose proof (rep3_len _ _ _ _ R) as Lu. unfold lf_size in HSz.
+        assert (Hne : used <> []).
+        { intros X. subst used. simpl in Lu. destruct Inv as (Hc & _). lia. }
+        destruct (prune_ref t l s used free now c kv rest R Inv Lt Hne HO) as (l1 & u1 & n1 & D1 & R1).
+        set (s2 := lf_erase_key (fst (lf_dyn_age s now)) kv) in *.
+        assert (A1 : assoc k (dl_index l1) = None) by (eapply rep3_ix_none; eauto).
+        assert (Hlt : List.length (lf_ents s2) < lf_cap s2) by lia.
+        destruct (insert_nonfull l1 s2 u1 (n1 :: free) k v now R1 Hlt A1) as (l' & u' & f' & D & R').
+        assert (DI : dl_do_insert true l k v now = dl_do_insert true l1 k v now).
+        { unfold dl_do_insert.
+          assert (Ca : (List.length (dl_list l) <=? dl_used l) = true).
+          { apply Nat.leb_le. rewrite (r_list _ _ _ _ R), (r_llen _ _ _ _ R), (r_used _ _ _ _ R). lia. }
+          assert (Cb : (List.length (dl_list l1) <=? dl_used l1) = false).
+          { apply Nat.leb_gt. rewrite (r_list _ _ _ _ R1), (r_llen _ _ _ _ R1), (r_used _ _ _ _ R1).
+            rewrite (rep3_len _ _ _ _ R1). exact Hlt. }
+          rewrite Ca, Cb, D1. reflexivity. }
+        rewrite DI, D. cbn [bind]. exists l'. split; [reflexivity|]. eapply rep3_intro; eauto.
+  Qed.
+
+  (* erase(key) *)
+  Lemma erase_key_ref t (l : lfdl K V) (s : lf K V) k :
+    lf_inv t s -> dl_rep l s ->
+    exists l', dl_erase l k = Ok (l', snd (lf_erase s k)) /\ dl_rep l' (fst (lf_erase s k)).
+  Proof.
+    intros Inv Rp. destruct (rep3_elim _ _ Rp) as (used & free & R).
+    assert (Nk : NoDup (keys (lf_ents s))) by (destruct Inv as (_ & _ & X & _); exact X).
+    unfold dl_erase, lf_erase. destruct (assoc k (dl_index l)) as [n|] eqn:A.
+    - destruct (rep3_lookup _ _ _ _ _ _ R Nk A) as (I & v0 & a0 & Ec & EA). rewrite EA.
+      assert (Kn : kf (dl_cells l) n = Some k) by (rewrite (kf_cell _ _ _ Ec); reflexivity).
+      destruct (erase_ref t l s used free n k R Inv I Kn) as (l' & D & R').
+      rewrite D. cbn [bind fst snd]. exists l'. split; [reflexivity|]. eapply rep3_intro; eauto.
+    - rewrite (rep3_lookup_none _ _ _ _ _ R A). exists l. auto.
+  Qed.
+
+  (* reading the node the index gives for a key: its value and its use count *)
+  Lemma read_node (l : lfdl K V) (s : lf K V) used free k n :
+    rep3 l s used free -> NoDup (keys (lf_ents s)) -> assoc k (dl_index l) = Some n ->
+    exists e v a, dcell_of l (It n) = Ok (n, e) /\ dc_val e = Some v /\
+                  mm_deref (dl_mm l) (dc_lfu e) = Ok (lf_count s k) /\
+                  assoc k (lf_ents s) = Some (v, a).
+  Proof.
+    intros R Nk A. destruct (rep3_lookup _ _ _ _ _ _ R Nk A) as (I & v0 & a0 & Ec & EA).
+    assert (Kn : kf (dl_cells l) n = Some k) by (rewrite (kf_cell _ _ _ Ec); reflexivity).
+    destruct (rep3_count _ _ _ _ _ _ R I Kn) as (c & Em & Ea2).
+    assert (Il : In n (dl_list l)) by (rewrite (r_list _ _ _ _ R); apply in_or_app; auto).
+    exists (mkcell k n a0 v0), v0, a0. split; [apply dcell_of_ok; auto|]. split; [reflexivity|].
+    split; [|exact EA]. unfold mm_deref, lf_count. cbn [mkcell dc_lfu]. rewrite Em, Ea2. reflexivity.
+  Qed.
+
+  (* do_find_with_use_count *)
+  Lemma find_use_ref t (l : lfdl K V) (s : lf K V) k pk now :
+    lf_inv t s -> (t <= now)%Z -> dl_rep l s ->
+    exists l', dl_find_use true l k pk now = Ok (l', snd (lf_find_use s k pk now)) /\
+               dl_rep l' (fst (lf_find_use s k pk now)).
+  Proof.
+    intros Inv Lt Rp. destruct (rep3_elim _ _ Rp) as (used & free & R).
+    assert (Nk : NoDup (keys (lf_ents s))) by (destruct Inv as (_ & _ & X & _); exact X).
+    unfold dl_find_use, lf_find_use. destruct (assoc k (dl_index l)) as [n|] eqn:A.
+    - destruct (rep3_lookup _ _ _ _ _ _ R Nk A) as (I & v0 & a0 & Ec & EA). rewrite EA.
+      destruct pk.
+      + cbn [bind fst snd].
+        destruct (read_node l s used free k n R Nk A) as (e & v1 & a1 & D1 & Ev & Dm & EA1).
+        rewrite D1. cbn [bind]. rewrite Dm. cbn [bind]. rewrite Ev.
+        rewrite EA in EA1. inversion EA1; subst v1 a1.
+        exists l. split; [reflexivity|exact Rp].
+      + destruct (access_ref t l s used free n k v0 a0 v0 (dl_cells l) now R Inv I Ec
+                    (r_clen _ _ _ _ R) Ec (fun m _ => eq_refl)) as (l' & D & R' & Ex).
+        rewrite with_cells_id in D. rewrite D. cbn [bind fst snd].
+        assert (I1 : lf_inv now (lf_access s k v0 now)).
+        { apply (lf_inv_access t); auto. apply assoc_Some_keys. congruence. }
+        assert (Nk1 : NoDup (keys (lf_ents (lf_access s k v0 now))))
+          by (destruct I1 as (_ & _ & X & _); exact X).
+        assert (A' : assoc k (dl_index l') = Some n) by (rewrite Ex; exact A).
+        destruct (read_node l' _ _ free k n R' Nk1 A') as (e & v1 & a1 & D1 & Ev & Dm & EA1).
+        rewrite D1. cbn [bind]. rewrite Dm. cbn [bind]. rewrite Ev.
+        rewrite ents_access_same in EA1. inversion EA1; subst v1 a1.
+        exists l'. split; [reflexivity|]. eapply rep3_intro; eauto.
+    - rewrite (rep3_lookup_none _ _ _ _ _ R A). exists l. auto.
+  Qed.
+
+  (* do_find *)
+  Lemma find_ref t (l : lfdl K V) (s : lf K V) k pk now :
+    lf_inv t s -> (t <= now)%Z -> dl_rep l s ->
+    exists l', dl_find true l k pk now = Ok (l', snd (lf_find s k pk now)) /\
+               dl_rep l' (fst (lf_find s k pk now)).
+  Proof.
+    intros Inv Lt Rp. destruct (rep3_elim _ _ Rp) as (used & free & R).
+    assert (Nk : NoDup (keys (lf_ents s))) by (destruct Inv as (_ & _ & X & _); exact X).
+    unfold dl_find, lf_find, lf_find_use. destruct (assoc k (dl_index l)) as [n|] eqn:A.
+    - destruct (rep3_lookup _ _ _ _ _ _ R Nk A) as (I & v0 & a0 & Ec & EA). rewrite EA.
+      destruct pk.
+      + cbn [bind fst snd].
+        destruct (read_node l s used free k n R Nk A) as (e & v1 & a1 & D1 & Ev & Dm & EA1).
+        rewrite D1. cbn [bind snd]. rewrite Ev.
+        rewrite EA in EA1. inversion EA1; subst v1 a1.
+        exists l. split; [reflexivity|exact Rp].
+      + destruct (access_ref t l s used free n k v0 a0 v0 (dl_cells l) now R Inv I Ec
+                    (r_clen _ _ _ _ R) Ec (fun m _ => eq_refl)) as (l' & D & R' & Ex).
+        rewrite with_cells_id in D. rewrite D. cbn [bind fst snd].
+        assert (I1 : lf_inv now (lf_access s k v0 now)).
+        { apply (lf_inv_access t); auto. apply assoc_Some_keys. congruence. }
+        assert (Nk1 : NoDup (keys (lf_ents (lf_access s k v0 now))))
+          by (destruct I1 as (_ & _ & X & _); exact X).
+        assert (A' : assoc k (dl_index l') = Some n) by (rewrite Ex; exact A).
+        destruct (read_node l' _ _ free k n R' Nk1 A') as (e & v1 & a1 & D1 & Ev & Dm & EA1).
+        rewrite D1. cbn [bind snd]. rewrite Ev.
+        rewrite ents_access_same in EA1. inversion EA1; subst v1 a1.
+        exists l'. split; [reflexivity|]. eapply rep3_intro; eauto.
+    - rewrite (rep3_lookup_none _ _ _ _ _ R A). exists l. auto.
+  Qed.
 End OpFacts.
+
+(* ------------------------------------------------------------------------------------ *)
+(* range calls (each element at the same clock reading)                                  *)
+(* ------------------------------------------------------------------------------------ *)
+Section RangeFacts.
+  Context {K V : Type} `{EqDec K}.
+  Local Open Scope list_scope.
+  Local Open Scope nat_scope.
+
+  Lemma lf_ins_inv t (s : lf K V) k v a now : lf_inv t s -> (t <= now)%Z ->
+    lf_inv now (fst (lf_ins s k v a now)).
+  Proof.
+    intros I L. destruct (lf_ins s k v a now) as [s1 b] eqn:E.
+    apply (lf_inv_step t s (Insert 0%Z k v a) now [] s1 (RB b) I L eq_refl).
+    simpl. rewrite E. reflexivity.
+  Qed.
+  Lemma lf_erase_inv t (s : lf K V) k now : lf_inv t s -> (t <= now)%Z ->
+    lf_inv now (fst (lf_erase s k)).
+  Proof.
+    intros I L. destruct (lf_erase s k) as [s1 b] eqn:E.
+    apply (lf_inv_step t s (Erase k) now [] s1 (RB b) I L eq_refl).
+    simpl. rewrite E. reflexivity.
+  Qed.
+  Lemma lf_find_inv t (s : lf K V) k pk now : lf_inv t s -> (t <= now)%Z ->
+    lf_inv now (fst (lf_find s k pk now)).
+  Proof.
+    intros I L. destruct (lf_find s k pk now) as [s1 r] eqn:E.
+    apply (lf_inv_step t s (Find k pk) now [] s1 (RO r) I L eq_refl).
+    simpl. rewrite E. reflexivity.
+  Qed.
+  Lemma lf_find_use_inv t (s : lf K V) k pk now : lf_inv t s -> (t <= now)%Z ->
+    lf_inv now (fst (lf_find_use s k pk now)).
+  Proof.
+    intros I L. destruct (lf_find_use s k pk now) as [s1 r] eqn:E.
+    apply (lf_inv_step t s (FindUse k pk) now [] s1 (RU r) I L eq_refl).
+    simpl. rewrite E. reflexivity.
+  Qed.
+
+  Lemma ins_range_ref now xs : forall t (l : lfdl K V) (s : lf K V) a n,
+    lf_inv t s -> (t <= now)%Z -> dl_rep l s ->
+    exists l', dl_ins_range true l xs a now n = Ok (l', snd (lf_ins_range s xs a now n)) /\
+               dl_rep l' (fst (lf_ins_range s xs a now n)) /\
+               lf_inv now (fst (lf_ins_range s xs a now n)).
+  Proof.
+    induction xs as [|[[z k] v] r IH]; intros t l s a n I L R; simpl.
+    - exists l. split; [reflexivity|]. split; [exact R|]. eapply lf_inv_mono; eauto.
+    - destruct (ins_ref t l s k v a now I L R) as (l1 & D1 & R1).
+      pose proof (lf_ins_inv t s k v a now I L) as I1.
+      destruct (lf_ins s k v a now) as [s1 b]. cbn [fst snd] in *.
+      rewrite D1. cbn [bind].
+      apply (IH now l1 s1 a (if b then S n else n) I1 (Z.le_refl now) R1).
+  Qed.
+
+  Lemma erase_range_ref now ks : forall t (l : lfdl K V) (s : lf K V) n,
+    lf_inv t s -> (t <= now)%Z -> dl_rep l s ->
+    exists l', dl_erase_range l ks n = Ok (l', snd (lf_erase_range s ks n)) /\
+               dl_rep l' (fst (lf_erase_range s ks n)) /\
+               lf_inv now (fst (lf_erase_range s ks n)).
+  Proof.
+    induction ks as [|k r IH]; intros t l s n I L R; simpl.
+    - exists l. split; [reflexivity|]. split; [exact R|]. eapply lf_inv_mono; eauto.
+    - destruct (erase_key_ref t l s k I R) as (l1 & D1 & R1).
+      pose proof (lf_erase_inv t s k now I L) as I1.
+      destruct (lf_erase s k) as [s1 b]. cbn [fst snd] in *.
+      rewrite D1. cbn [bind].
+      apply (IH now l1 s1 (if b then S n else n) I1 (Z.le_refl now) R1).
+  Qed.
+
+  Lemma find_range_ref now pk ks : forall t (l : lfdl K V) (s : lf K V),
+    lf_inv t s -> (t <= now)%Z -> dl_rep l s ->
+    exists l', dl_find_range true l ks pk now = Ok (l', snd (lf_find_range s ks pk now)) /\
+               dl_rep l' (fst (lf_find_range s ks pk now)) /\
+               lf_inv now (fst (lf_find_range s ks pk now)).
+  Proof.
+    induction ks as [|k r IH]; intros t l s I L R; simpl.
+    - exists l. split; [reflexivity|]. split; [exact R|]. eapply lf_inv_mono; eauto.
+    - destruct (find_ref t l s k pk now I L R) as (l1 & D1 & R1).
+      pose proof (lf_find_inv t s k pk now I L) as I1.
+      destruct (lf_find s k pk now) as [s1 o]. cbn [fst snd] in *.
+      rewrite D1. cbn [bind].
+      destruct (IH now l1 s1 I1 (Z.le_refl now) R1) as (l2 & D2 & R2 & I2).
+      rewrite D2. cbn [bind].
+      destruct (lf_find_range s1 r pk now) as [s2 os]. cbn [fst snd] in *.
+      exists l2. split; [reflexivity|]. split; assumption.
+  Qed.
+End RangeFacts.
 
 Section LfudaLitFacts.
   Context {K V : Type} `{EqDec K}.
 
   Theorem dl_rep_init : forall cap tick rnum rk,
       1 <= cap -> dl_rep (K := K) (V := V) (lfdl_init cap tick rnum rk) (lf_init cap tick rnum rk).
-  Admitted.
+  Proof.
+    intros cap tick rnum rk Hc. apply (rep3_intro _ _ [] (seq 0 cap)).
+    constructor; unfold lfdl_init, lf_init;
+      cbn [dl_cap dl_tick dl_rnum dl_rk dl_list dl_cells dl_end dl_index dl_mm dl_used
+           lf_cap lf_tick lf_rnum lf_rk lf_ord lf_ents app]; try reflexivity.
+    - apply repeat_length.
+    - apply seq_NoDup.
+    - apply seq_length.
+    - intros n I. apply in_seq in I. lia.
+    - constructor.
+    - constructor.
+    - intros n k v a [].
+    - intros k n E. discriminate.
+  Qed.
+
+  Lemma rep_sizes (l : lfdl K V) (s : lf K V) : dl_rep l s ->
+    dl_used l = lf_size s /\ List.length (dl_list l) = lf_cap s /\ List.length (dl_cells l) = lf_cap s.
+  Proof.
+    intros Rp. destruct (rep3_elim _ _ Rp) as (used & free & R).
+    split; [|split].
+    - rewrite (r_used _ _ _ _ R). unfold lf_size. apply (rep3_len _ _ _ _ R).
+    - rewrite (r_list _ _ _ _ R). exact (r_llen _ _ _ _ R).
+    - exact (r_clen _ _ _ _ R).
+  Qed.
 
   (* one public call at a clock reading not earlier than the previous one *)
   Theorem dl_step_refines : forall t (l : lfdl K V) (s : lf K V) o now rnd,
       lf_inv t s -> (t <= now)%Z -> dl_rep l s ->
       exists l', dl_step true l o now rnd = Ok (l', snd (lf_step s o now rnd)) /\
                  dl_rep l' (fst (lf_step s o now rnd)) /\ lf_inv now (fst (lf_step s o now rnd)).
-  Admitted.
+  Proof.
+    intros t l s o now rnd I L R.
+    pose proof (lf_inv_mono t now s I L) as I'.
+    destruct (rep_sizes l s R) as (Hsz & Hcap & _).
+    destruct o as [ttl k v a|xs a|k|ks|k pk|ks pk|ks pk|k pk| |d| | | | | ]; simpl;
+      try (exists l; split; [reflexivity|split; [exact R|exact I']]).
+    - destruct (ins_ref t l s k v a now I L R) as (l1 & D1 & R1).
+      pose proof (lf_ins_inv t s k v a now I L) as I1.
+      destruct (lf_ins s k v a now) as [s1 b]. cbn [fst snd] in *.
+      rewrite D1. cbn [bind]. exists l1. auto.
+    - destruct (ins_range_ref now xs t l s a 0 I L R) as (l1 & D1 & R1 & I1).
+      destruct (lf_ins_range s xs a now 0) as [s1 n]. cbn [fst snd] in *.
+      rewrite D1. cbn [bind]. exists l1. auto.
+    - destruct (erase_key_ref t l s k I R) as (l1 & D1 & R1).
+      pose proof (lf_erase_inv t s k now I L) as I1.
+      destruct (lf_erase s k) as [s1 b]. cbn [fst snd] in *.
+      rewrite D1. cbn [bind]. exists l1. auto.
+    - destruct (erase_range_ref now ks t l s 0 I L R) as (l1 & D1 & R1 & I1).
+      destruct (lf_erase_range s ks 0) as [s1 n]. cbn [fst snd] in *.
+      rewrite D1. cbn [bind]. exists l1. auto.
+    - destruct (find_ref t l s k pk now I L R) as (l1 & D1 & R1).
+      pose proof (lf_find_inv t s k pk now I L) as I1.
+      destruct (lf_find s k pk now) as [s1 r]. cbn [fst snd] in *.
+      rewrite D1. cbn [bind]. exists l1. auto.
+    - destruct (find_range_ref now pk ks t l s I L R) as (l1 & D1 & R1 & I1).
+      destruct (lf_find_range s ks pk now) as [s1 r]. cbn [fst snd] in *.
+      rewrite D1. cbn [bind]. exists l1. auto.
+    - destruct (find_range_ref now pk ks t l s I L R) as (l1 & D1 & R1 & I1).
+      destruct (lf_find_range s ks pk now) as [s1 r]. cbn [fst snd] in *.
+      rewrite D1. cbn [bind]. exists l1. auto.
+    - destruct (find_use_ref t l s k pk now I L R) as (l1 & D1 & R1).
+      pose proof (lf_find_use_inv t s k pk now I L) as I1.
+      destruct (lf_find_use s k pk now) as [s1 r]. cbn [fst snd] in *.
+      rewrite D1. cbn [bind]. exists l1. auto.
+    - destruct (rep3_elim _ _ R) as (used & free & R3).
+      assert (T : (0 <= lf_tick s)%Z) by (destruct I as (_ & X & _); exact X).
+      destruct (dyn_age_ref l s used free now R3 T) as (l1 & u1 & D1 & R1).
+      pose proof (lf_inv_dyn_age t s now I L) as I1.
+      destruct (lf_dyn_age s now) as [s1 n]. cbn [fst snd] in *.
+      rewrite D1. cbn [bind]. exists l1. split; [reflexivity|]. split; [|exact I1].
+      eapply rep3_intro; eauto.
+    - exists l. rewrite Hsz. split; [reflexivity|split; [exact R|exact I']].
+    - exists l. rewrite Hsz. split; [reflexivity|split; [exact R|exact I']].
+    - exists l. rewrite Hcap. split; [reflexivity|split; [exact R|exact I']].
+  Qed.
 
   Fixpoint dl_run (l : lfdl K V) (h : list (ev K V)) : res (lfdl K V * list (ret K V)) :=
     match h with
@@ -1020,6 +1389,23 @@ Section LfudaLitFacts.
                 do z <- dl_run l1 r; let '(l2, ys) := z in Ok (l2, y :: ys)
     end.
 
+  Lemma dl_run_refines : forall h t (l : lfdl K V) (s : lf K V),
+      lf_inv t s -> mono_from t h -> dl_rep l s ->
+      exists l', dl_run l h = Ok (l', snd (run lf_step s h)) /\
+                 dl_rep l' (fst (run lf_step s h)).
+  Proof.
+    induction h as [|e r IH]; intros t l s I M R; simpl.
+    - exists l. auto.
+    - destruct M as [L M].
+      destruct (dl_step_refines t l s (e_op e) (e_now e) (e_rnd e) I L R) as (l1 & D1 & R1 & I1).
+      rewrite D1. cbn [bind]. unfold step_ev.
+      destruct (lf_step s (e_op e) (e_now e) (e_rnd e)) as [s1 y1]. cbn [fst snd] in *.
+      destruct (IH (e_now e) l1 s1 I1 M R1) as (l2 & D2 & R2).
+      rewrite D2. cbn [bind].
+      destruct (run lf_step s1 r) as [s2 ys]. cbn [fst snd] in *.
+      exists l2. split; [reflexivity|exact R2].
+  Qed.
+
   (* whole histories at non-decreasing clock readings from a fresh cache (tick >= 0): never UB,
      same results as the mid-level model *)
   Theorem dl_no_UB_on_any_history : forall cap tick rnum rk h,
@@ -1027,11 +1413,92 @@ Section LfudaLitFacts.
       exists l', dl_run (lfdl_init cap tick rnum rk) h
                  = Ok (l', snd (run lf_step (lf_init cap tick rnum rk) h)) /\
                  dl_rep l' (fst (run lf_step (lf_init cap tick rnum rk) h)).
-  Admitted.
+  Proof.
+    intros cap tick rnum rk h Hc Ht M.
+    apply (dl_run_refines h 0%Z); auto.
+    - apply lf_inv_init; auto.
+    - apply dl_rep_init; auto.
+  Qed.
 
+  (* the capacity of the mid-level state never changes *)
+  Lemma cap_prune (s : lf K V) now : lf_cap (lf_prune s now) = lf_cap s.
+  Proof.
+    unfold lf_prune. destruct (lf_ents s); auto.
+    destruct (lf_ord (fst (lf_dyn_age s now))) as [|[c k] r]; simpl; apply (dyn_age_params s now).
+  Qed.
+  Lemma cap_ins (s : lf K V) k v a now : lf_cap (fst (lf_ins s k v a now)) = lf_cap s.
+  Proof.
+    unfold lf_ins. destruct (assoc k (lf_ents s)).
+    - destruct (a_upd a); reflexivity.
+    - destruct (a_ins a); [|reflexivity].
+      destruct (lf_cap s <=? List.length (lf_ents s)); simpl; auto. apply cap_prune.
+  Qed.
+  Lemma cap_erase (s : lf K V) k : lf_cap (fst (lf_erase s k)) = lf_cap s.
+  Proof. unfold lf_erase. destruct (assoc k (lf_ents s)); reflexivity. Qed.
+  Lemma cap_find_use (s : lf K V) k pk now : lf_cap (fst (lf_find_use s k pk now)) = lf_cap s.
+  Proof.
+    unfold lf_find_use. destruct (assoc k (lf_ents s)) as [[v a]|]; [|reflexivity].
+    destruct pk; reflexivity.
+  Qed.
+  Lemma cap_find (s : lf K V) k pk now : lf_cap (fst (lf_find s k pk now)) = lf_cap s.
+  Proof.
+    unfold lf_find. pose proof (cap_find_use s k pk now) as X.
+    destruct (lf_find_use s k pk now) as [s1 r]. exact X.
+  Qed.
+  Lemma cap_ins_range xs : forall (s : lf K V) a now n,
+    lf_cap (fst (lf_ins_range s xs a now n)) = lf_cap s.
+  Proof.
+    induction xs as [|[[z k] v] r IH]; intros s a now n; simpl; auto.
+    pose proof (cap_ins s k v a now) as X. destruct (lf_ins s k v a now) as [s1 b].
+    rewrite IH. exact X.
+  Qed.
+  Lemma cap_erase_range ks : forall (s : lf K V) n, lf_cap (fst (lf_erase_range s ks n)) = lf_cap s.
+  Proof.
+    induction ks as [|k r IH]; intros s n; simpl; auto.
+    pose proof (cap_erase s k) as X. destruct (lf_erase s k) as [s1 b]. rewrite IH. exact X.
+  Qed.
+  Lemma cap_find_range ks : forall (s : lf K V) pk now,
+    lf_cap (fst (lf_find_range s ks pk now)) = lf_cap s.
+  Proof.
+    induction ks as [|k r IH]; intros s pk now; simpl; auto.
+    pose proof (cap_find s k pk now) as X. destruct (lf_find s k pk now) as [s1 o].
+    pose proof (IH s1 pk now) as Y. destruct (lf_find_range s1 r pk now) as [s2 os].
+    simpl in *. congruence.
+  Qed.
+
+  Lemma lf_step_cap : forall (s : lf K V) o now rnd, lf_cap (fst (lf_step s o now rnd)) = lf_cap s.
+  Proof.
+    intros s o now rnd.
+    destruct o as [ttl k v a|xs a|k|ks|k pk|ks pk|ks pk|k pk| |d| | | | | ]; simpl; try reflexivity.
+    - pose proof (cap_ins s k v a now) as X. destruct (lf_ins s k v a now); exact X.
+    - pose proof (cap_ins_range xs s a now 0) as X. destruct (lf_ins_range s xs a now 0); exact X.
+    - pose proof (cap_erase s k) as X. destruct (lf_erase s k); exact X.
+    - pose proof (cap_erase_range ks s 0) as X. destruct (lf_erase_range s ks 0); exact X.
+    - pose proof (cap_find s k pk now) as X. destruct (lf_find s k pk now); exact X.
+    - pose proof (cap_find_range ks s pk now) as X. destruct (lf_find_range s ks pk now); exact X.
+    - pose proof (cap_find_range ks s pk now) as X. destruct (lf_find_range s ks pk now); exact X.
+    - pose proof (cap_find_use s k pk now) as X. destruct (lf_find_use s k pk now); exact X.
+    - pose proof (dyn_age_params s now) as X. destruct (lf_dyn_age s now); apply X.
+  Qed.
+
+  Lemma lf_run_cap : forall h (s : lf K V), lf_cap (fst (run lf_step s h)) = lf_cap s.
+  Proof.
+    induction h as [|e r IH]; intros s; simpl; auto.
+    unfold step_ev. pose proof (lf_step_cap s (e_op e) (e_now e) (e_rnd e)) as X.
+    destruct (lf_step s (e_op e) (e_now e) (e_rnd e)) as [s1 y].
+    pose proof (IH s1) as Y. destruct (run lf_step s1 r) as [s2 ys]. simpl in *. congruence.
+  Qed.
+
+  (* the number of list nodes / value cells never changes *)
   Theorem dl_value_cells_constant : forall cap tick rnum rk h l' rs,
       1 <= cap -> (0 <= tick)%Z -> mono_from 0 h ->
       dl_run (lfdl_init cap tick rnum rk) h = Ok (l', rs) ->
       List.length (dl_cells l') = cap /\ List.length (dl_list l') = cap.
-  Admitted.
+  Proof.
+    intros cap tick rnum rk h l' rs Hc Ht M E.
+    destruct (dl_no_UB_on_any_history cap tick rnum rk h Hc Ht M) as (l2 & D & R).
+    rewrite D in E. injection E as E1 E2. subst l2.
+    destruct (rep_sizes _ _ R) as (_ & Hl & Hcl).
+    rewrite lf_run_cap in Hl, Hcl. simpl in Hl, Hcl. auto.
+  Qed.
 End LfudaLitFacts.
